@@ -231,6 +231,27 @@ def check_state(ctx, desc, state_dir: Path, versions: dict, committed: dict,
             ctx.fail("iterates", ("iteration-raised", tag),
                      f"{what}: iterating {split} raised {exc!r}")
             return
+        # a second, parallel reader must see the same thing
+        second = "rust" if dsops.interface_applicable("rust", desc) else \
+            ("concurrent" if desc["fmt"] != "tfrec" else None)
+        if second is not None:
+            try:
+                got2 = dsops.read_all(ds, split, second, shuffle=0,
+                                      file_parallelism=2)
+            except BaseException as exc:  # pylint: disable=broad-except
+                if type(exc).__name__ in ("KeyboardInterrupt", "SystemExit"):
+                    raise
+                ctx.fail("iterates", ("iteration-raised", tag, second),
+                         f"{what}: iterating {split} through {second} "
+                         f"raised {exc!r}")
+                return
+            if [dsops.ex_id_of(e) for e in got2] != [
+                    dsops.ex_id_of(e) for e in got
+            ]:
+                ctx.fail("whole-examples", ("readers-disagree", tag, second),
+                         f"{what}: {second} and sync readers disagree on "
+                         f"{split}")
+                return
         ids = []
         for ex in got:
             if not dsops.example_matches(desc, ex):
@@ -465,6 +486,7 @@ STAGES = [
               "thorough": 1200
           },
           fork=True,
+          rust=True,
           timeout=900),
     Stage(name="killcheck",
           run=run_killcheck,
